@@ -227,6 +227,17 @@ def evaluate(records, name="c14m", shard=8, timeout=900):
     return out
 
 
+def _prep(entry):
+    """resolve the __BPLEN__ placeholder (length of the helper blueprint's initcode) as c14_pass_run.run_program does"""
+    if "__BPLEN__" not in entry["src"]:
+        return entry
+    from vlib.c14_pass_corpus import HELPERS
+    from vlib.configs import Config, compile_src
+    hsrc, _ = HELPERS[entry["helper"]]
+    n = len(bytes.fromhex(compile_src(hsrc, Config(False, "gas", "cancun"), formats=("bytecode",))["bytecode"][2:]))
+    return dict(entry, src=entry["src"].replace("__BPLEN__", str(n)))
+
+
 def compile_corpus(progs, levels, obs):
     """levels: 'gas' | 'codesize' | 'O3'"""
     from vlib.configs import Config, compile_src
@@ -234,6 +245,7 @@ def compile_corpus(progs, levels, obs):
     with warnings.catch_warnings():
         warnings.simplefilter("ignore")
         for c in progs:
+            c = _prep(c)
             for lvl in levels:
                 obs.context = (c["name"], lvl)
                 try:
@@ -252,11 +264,7 @@ def search(entry, level, pass_name, seed, tier):
     from vlib import c14_pass_harness as H
     from vlib import c14_pass_run as PR
     from vlib.configs import Config, compile_src
-    if "__BPLEN__" in entry["src"]:
-        from vlib.c14_pass_corpus import HELPERS
-        hsrc, _ = HELPERS[entry["helper"]]
-        n = len(bytes.fromhex(compile_src(hsrc, Config(False, "gas", PR.EVM), formats=("bytecode",))["bytecode"][2:]))
-        entry = dict(entry, src=entry["src"].replace("__BPLEN__", str(n)))
+    entry = _prep(entry)
     rng = random.Random(f"{seed}:c14m:{entry['name']}")
     ref_out = compile_src(entry["src"], Config(False, "none", PR.EVM), formats=("bytecode", "bytecode_runtime", "abi", "layout"))
     abi = ref_out["abi"]
